@@ -47,7 +47,8 @@ def _base(draw, max_len=7):
             'delta_factor': draw(st.sampled_from([1.0, 0.9, 0.5, 0.25])),
             'penalty': draw(st.sampled_from([None, 0, 0.05, 0.25, 0.5])),
             'window': draw(st.one_of(st.none(), st.integers(1, max(len(s1), l2) + 1))),
-            'only_triu': (draw(st.booleans()) if (s2 is None or len(s1) == l2) else draw(st.integers(0, 3)) == 0)}
+            'only_triu': (draw(st.booleans()) if (s2 is None or len(s1) == l2) else draw(st.integers(0, 3)) == 0),
+            'layout': draw(st.sampled_from(['C', 'C', 'C', 'strided', 'reversed']))}
 
 
 def ref_affinity(case):
@@ -102,6 +103,18 @@ def _check(res, tag, case, M, A):
                 return
 
 
+def _view(a, kind):
+    """The same values as a non-contiguous view (every second sample of a longer buffer / a reversed buffer)."""
+    import numpy as np
+    if kind == 'strided':
+        big = np.full(2 * len(a), 77.125)
+        big[::2] = a
+        return big[::2]
+    if kind == 'reversed':
+        return np.array(a[::-1])[::-1]
+    return a
+
+
 def _lib_kw(case):
     return {'window': case['window'], 'only_triu': case['only_triu'], 'penalty': case['penalty'], 'gamma': case['gamma'],
             'tau': case['tau'], 'delta': case['delta'], 'delta_factor': case['delta_factor']}
@@ -120,8 +133,11 @@ def run_matrix(case):
     res.cls('self' if case['s2'] is None else 'pair', 'triu' if case['only_triu'] else 'full',
             'penalty=None' if case['penalty'] is None else ('penalty>0' if case['penalty'] else 'penalty=0'),
             'window' if case['window'] is not None else 'no-window')
-    a1 = np.array(s1, dtype=np.double)
-    a2 = np.array(s2, dtype=np.double)
+    a1 = _view(np.array(s1, dtype=np.double), case.get('layout'))
+    # a self-comparison hands the *same object* over twice, as LocalConcurrences(series) does
+    a2 = a1 if case['s2'] is None else _view(np.array(s2, dtype=np.double), case.get('layout'))
+    if case.get('layout', 'C') != 'C':
+        res.cls('layout=' + case['layout'])
     kw = _lib_kw(case)
     got, exc = libcall(dtw.warping_paths_affinity, a1, a2, **kw)
     if exc:
@@ -203,8 +219,8 @@ def _case_hist(draw):
 def _mk_lc(case):
     import numpy as np
     from dtaidistance.subsequence.localconcurrences import LocalConcurrences
-    a1 = np.array(case['s1'], dtype=np.double)
-    a2 = None if case['s2'] is None else np.array(case['s2'], dtype=np.double)
+    a1 = _view(np.array(case['s1'], dtype=np.double), case.get('layout'))
+    a2 = None if case['s2'] is None else _view(np.array(case['s2'], dtype=np.double), case.get('layout'))
     lc = LocalConcurrences(a1, a2, gamma=case['gamma'], tau=case['tau'], delta=case['delta'],
                            delta_factor=case['delta_factor'], only_triu=case['only_triu'], penalty=case['penalty'],
                            window=case['window'], use_c=case['use_c'])
